@@ -110,11 +110,124 @@ func (e *absExec) cmp(op token.Token, a, b string) (bool, bool) {
 
 // run executes f with integer parameter bound to argSym.
 func (e *absExec) run(f *ssa.Function, argSym string, depth int) {
-	if depth > 3 || e.fail != "" {
+	e.exec(f, argSym, depth, nil)
+}
+
+// replImpl describes the repo's implementation of the status object: its type, the fields
+// holding the maximum and the progress, and the methods that write them.
+type replImpl struct {
+	named        *types.Named
+	maxF, progF  *types.Var
+	mutators     map[string]bool
+	maxWriters   map[string]bool
+	progWriters  map[string]bool
+	methodsByKey map[string]*ssa.Function
+}
+
+// writesMax / writesProgress: the call is a method of the status object that (in the repo's
+// implementation) assigns the maximum / the progress.
+func (c *Ctx) writesMax(call ssa.CallInstruction) bool {
+	name := methodName(call)
+	if name == "" || name == "Reset" || !c.isMethodOn(call, name, ifaceReplInfo) {
+		return false
+	}
+	return name == "SetMax" || c.replInfoImpl().maxWriters[name]
+}
+
+func (c *Ctx) writesProgress(call ssa.CallInstruction) bool {
+	name := methodName(call)
+	if name == "" || name == "Reset" || !c.isMethodOn(call, name, ifaceReplInfo) {
+		return false
+	}
+	return name == "SetProgress" || c.replInfoImpl().progWriters[name]
+}
+
+func (c *Ctx) replInfoImpl() *replImpl {
+	if c.replMemo != nil {
+		return c.replMemo
+	}
+	ri := &replImpl{mutators: map[string]bool{}, maxWriters: map[string]bool{}, progWriters: map[string]bool{}, methodsByKey: map[string]*ssa.Function{}}
+	c.replMemo = ri
+	for _, n := range c.implementers(ifaceReplInfo) {
+		if n.Obj().Pkg() == nil || !inRepo(n.Obj().Pkg()) || strings.Contains(n.Obj().Name(), "verifCtl") {
+			continue
+		}
+		ri.named = n
+		break
+	}
+	if ri.named == nil {
+		return ri
+	}
+	fieldReturned := func(name string) *types.Var {
+		g := c.methodOf(ri.named, name)
+		if g == nil || g.Blocks == nil {
+			return nil
+		}
+		var fv *types.Var
+		eachInstr(g, func(in ssa.Instruction) {
+			r, ok := in.(*ssa.Return)
+			if !ok || len(r.Results) != 1 {
+				return
+			}
+			for _, v := range resolveSpill(r.Results[0]) {
+				if u, ok := v.(*ssa.UnOp); ok && u.Op == token.MUL {
+					if fa, ok := u.X.(*ssa.FieldAddr); ok {
+						fv = fieldVarOf(fa)
+					}
+				}
+			}
+		})
+		return fv
+	}
+	ri.maxF, ri.progF = fieldReturned("GetMax"), fieldReturned("GetProgress")
+	for _, g := range c.methodsOf(ri.named) {
+		if g.Parent() != nil {
+			continue
+		}
+		ri.methodsByKey[g.Name()] = g
+		eachInstr(g, func(in ssa.Instruction) {
+			if st, ok := in.(*ssa.Store); ok {
+				if fa, ok := st.Addr.(*ssa.FieldAddr); ok {
+					if fv := fieldVarOf(fa); fv != nil && (fv == ri.maxF || fv == ri.progF) {
+						ri.mutators[g.Name()] = true
+						if fv == ri.maxF {
+							ri.maxWriters[g.Name()] = true
+						} else {
+							ri.progWriters[g.Name()] = true
+						}
+					}
+				}
+			}
+		})
+	}
+	return ri
+}
+
+// isStatusMutation: a call of a method of the status interface whose implementation writes the
+// maximum or the progress (Reset excluded: R1 treats it apart).
+func (c *Ctx) isStatusMutation(call ssa.CallInstruction) bool {
+	name := methodName(call)
+	if name == "" || name == "Reset" {
+		return false
+	}
+	if !c.isMethodOn(call, name, ifaceReplInfo) {
+		return false
+	}
+	if name == "SetMax" || name == "SetProgress" {
+		return true
+	}
+	return c.replInfoImpl().mutators[name]
+}
+
+// exec executes f abstractly. Integer parameters are bound to argSym; when impl is set, f is a
+// method of the status implementation and loads/stores of its two fields are the abstract
+// maximum and progress. It returns the symbol of f's integer result, if it has one.
+func (e *absExec) exec(f *ssa.Function, argSym string, depth int, impl *replImpl) (string, bool) {
+	if depth > 4 || e.fail != "" {
 		if e.fail == "" {
 			e.fail = "call depth"
 		}
-		return
+		return "", false
 	}
 	val := map[ssa.Value]string{}
 	boolv := map[ssa.Value]bool{}
@@ -122,6 +235,22 @@ func (e *absExec) run(f *ssa.Function, argSym string, depth int) {
 		if isIntType(p.Type()) {
 			val[p] = argSym
 		}
+	}
+	statusField := func(a ssa.Value) string {
+		if impl == nil {
+			return ""
+		}
+		fa, ok := a.(*ssa.FieldAddr)
+		if !ok {
+			return ""
+		}
+		switch fieldVarOf(fa) {
+		case impl.maxF:
+			return "max"
+		case impl.progF:
+			return "progress"
+		}
+		return ""
 	}
 	var symOf func(v ssa.Value) (string, bool)
 	symOf = func(v ssa.Value) (string, bool) {
@@ -136,7 +265,7 @@ func (e *absExec) run(f *ssa.Function, argSym string, depth int) {
 		e.steps++
 		if e.steps > 2000 {
 			e.fail = "step limit (loop?)"
-			return
+			return "", false
 		}
 		var next *ssa.BasicBlock
 		for _, in := range blk.Instrs {
@@ -148,7 +277,7 @@ func (e *absExec) run(f *ssa.Function, argSym string, depth int) {
 							val[x] = s
 						} else if isIntType(x.Type()) {
 							e.fail = "phi edge of unknown value at " + e.c.pos(x.Pos())
-							return
+							return "", false
 						}
 					}
 				}
@@ -160,14 +289,14 @@ func (e *absExec) run(f *ssa.Function, argSym string, depth int) {
 					if !ok1 || !ok2 {
 						if isIntType(x.X.Type()) {
 							e.fail = "comparison of a value the order-type domain does not model at " + e.c.pos(x.Pos())
-							return
+							return "", false
 						}
 						continue
 					}
 					r, ok := e.cmp(x.Op, a, b)
 					if !ok {
 						e.fail = "comparison outside the enumerated symbols (" + a + " vs " + b + ")"
-						return
+						return "", false
 					}
 					boolv[x] = r
 				case token.ADD:
@@ -177,12 +306,12 @@ func (e *absExec) run(f *ssa.Function, argSym string, depth int) {
 						val[x] = "p+1"
 					} else if isIntType(x.Type()) {
 						e.fail = "arithmetic other than progress+1 at " + e.c.pos(x.Pos())
-						return
+						return "", false
 					}
 				default:
 					if isIntType(x.Type()) {
 						e.fail = "arithmetic the order-type domain does not model at " + e.c.pos(x.Pos())
-						return
+						return "", false
 					}
 				}
 			case *ssa.Call:
@@ -198,7 +327,7 @@ func (e *absExec) run(f *ssa.Function, argSym string, depth int) {
 					s, ok := symOf(argsOf(x)[0])
 					if !ok {
 						e.fail = "SetMax of an unmodelled value at " + e.c.pos(x.Pos())
-						return
+						return "", false
 					}
 					e.st.max = s
 					e.st.setMax = append(e.st.setMax, s)
@@ -206,12 +335,39 @@ func (e *absExec) run(f *ssa.Function, argSym string, depth int) {
 					s, ok := symOf(argsOf(x)[0])
 					if !ok {
 						e.fail = "SetProgress of an unmodelled value at " + e.c.pos(x.Pos())
-						return
+						return "", false
 					}
 					e.st.progress = s
 					e.st.setProgress = append(e.st.setProgress, s)
 				default:
-					if g := x.Call.StaticCallee(); g != nil && g.Blocks != nil && g.Pkg == f.Pkg && touchesStatus(e.c, g, 0) {
+					// another method of the status object: execute its implementation
+					if name != "" && name != "Reset" && e.c.isMethodOn(x, name, ifaceReplInfo) {
+						ri := e.c.replInfoImpl()
+						g := ri.methodsByKey[name]
+						if g == nil || g.Blocks == nil || ri.maxF == nil || ri.progF == nil {
+							e.fail = "status method " + name + " has no implementation this rule can read, at " + e.c.pos(x.Pos())
+							return "", false
+						}
+						arg := ""
+						for _, a := range argsOf(x) {
+							if isIntType(a.Type()) {
+								s, ok := symOf(a)
+								if !ok {
+									e.fail = "status method called with an unmodelled argument at " + e.c.pos(x.Pos())
+									return "", false
+								}
+								arg = s
+							}
+						}
+						if r, ok := e.exec(g, arg, depth+1, ri); ok {
+							val[x] = r
+						}
+						if e.fail != "" {
+							return "", false
+						}
+						continue
+					}
+					if g := x.Call.StaticCallee(); g != nil && g.Blocks != nil && g.Pkg == f.Pkg && (touchesStatus(e.c, g, 0) || (isIntType(x.Type()) && pureIntHelper(e.c, g))) {
 						arg := ""
 						for i, p := range g.Params {
 							if isIntType(p.Type()) && i < len(x.Call.Args) {
@@ -219,25 +375,24 @@ func (e *absExec) run(f *ssa.Function, argSym string, depth int) {
 									arg = s
 								} else {
 									e.fail = "helper called with an unmodelled argument at " + e.c.pos(x.Pos())
-									return
+									return "", false
 								}
 							}
 						}
-						e.run(g, arg, depth+1)
+						if r, ok := e.exec(g, arg, depth+1, nil); ok {
+							val[x] = r
+						}
 						if e.fail != "" {
-							return
+							return "", false
 						}
 					}
 					// other calls (accessors returning objects, tracing) do not produce integers we use
-					if isIntType(x.Type()) {
-						// an integer of unknown origin: only a problem if it is used, detected at use
-					}
 				}
 			case *ssa.If:
 				b, ok := boolv[x.Cond]
 				if !ok {
 					e.fail = "branch on a condition the order-type domain does not model at " + e.c.pos(bestPos(x))
-					return
+					return "", false
 				}
 				if b {
 					next = blk.Succs[0]
@@ -246,15 +401,56 @@ func (e *absExec) run(f *ssa.Function, argSym string, depth int) {
 				}
 			case *ssa.Jump:
 				next = blk.Succs[0]
+			case *ssa.UnOp:
+				// a load of one of the status object's two fields
+				if x.Op == token.MUL {
+					switch statusField(x.X) {
+					case "max":
+						val[x] = e.st.max
+					case "progress":
+						val[x] = e.st.progress
+					}
+				}
+			case *ssa.Store:
+				switch statusField(x.Addr) {
+				case "max":
+					sv, ok := symOf(x.Val)
+					if !ok {
+						e.fail = "the maximum is assigned an unmodelled value at " + e.c.pos(x.Pos())
+						return "", false
+					}
+					e.st.max = sv
+					e.st.setMax = append(e.st.setMax, sv)
+				case "progress":
+					sv, ok := symOf(x.Val)
+					if !ok {
+						e.fail = "the progress is assigned an unmodelled value at " + e.c.pos(x.Pos())
+						return "", false
+					}
+					e.st.progress = sv
+					e.st.setProgress = append(e.st.setProgress, sv)
+				}
 			case *ssa.Return:
-				return
+				for _, rv := range x.Results {
+					if isIntType(rv.Type()) {
+						for _, y := range resolveSpill(rv) {
+							if sy, ok := symOf(y); ok {
+								return sy, true
+							}
+						}
+						if sy, ok := symOf(rv); ok {
+							return sy, true
+						}
+					}
+				}
+				return "", false
 			case *ssa.Panic:
 				e.fail = "panic reached"
-				return
+				return "", false
 			}
 		}
 		if next == nil {
-			return
+			return "", false
 		}
 		prev, blk = blk, next
 	}
@@ -267,7 +463,7 @@ func touchesStatus(c *Ctx, f *ssa.Function, depth int) bool {
 	}
 	found := false
 	eachCall(f, func(call ssa.CallInstruction) {
-		if c.isMethodOn(call, "SetMax", ifaceReplInfo) || c.isMethodOn(call, "SetProgress", ifaceReplInfo) {
+		if c.isStatusMutation(call) {
 			found = true
 			return
 		}
@@ -283,16 +479,104 @@ func touchesStatus(c *Ctx, f *ssa.Function, depth int) bool {
 func directStatusWriter(c *Ctx, f *ssa.Function) bool {
 	found := false
 	eachCall(f, func(call ssa.CallInstruction) {
-		if c.isMethodOn(call, "SetMax", ifaceReplInfo) || c.isMethodOn(call, "SetProgress", ifaceReplInfo) {
+		if c.isStatusMutation(call) {
 			found = true
 		}
 	})
 	return found
 }
 
+// pureIntHelper: a same-package function returning an int that only compares and copies
+// (reads the log length, no status write): executed to obtain the symbol it returns.
+func pureIntHelper(c *Ctx, g *ssa.Function) bool {
+	if g.Signature.Results().Len() != 1 || !isIntType(g.Signature.Results().At(0).Type()) {
+		return false
+	}
+	n := 0
+	eachInstr(g, func(ssa.Instruction) { n++ })
+	return n < 60
+}
+
 func isIntType(t types.Type) bool {
 	b, ok := t.Underlying().(*types.Basic)
 	return ok && b.Info()&types.IsInteger != 0
+}
+
+func onlyIntParams(f *ssa.Function) bool {
+	for i, p := range f.Params {
+		if i == 0 && f.Signature.Recv() != nil {
+			continue
+		}
+		if !isIntType(p.Type()) {
+			return false
+		}
+	}
+	return true
+}
+
+// monotoneMutators executes the status implementation's own composite methods (everything
+// that writes the two fields except the raw setters and Reset) on every order type: a method
+// under which neither figure can decrease may be called from anywhere.
+func (c *Ctx) monotoneMutators() map[string]bool {
+	out := map[string]bool{}
+	ri := c.replInfoImpl()
+	if ri.named == nil || ri.maxF == nil || ri.progF == nil {
+		return out
+	}
+	var names []string
+	for m := range ri.mutators {
+		if m != "SetMax" && m != "SetProgress" && m != "Reset" {
+			names = append(names, m)
+		}
+	}
+	sort.Strings(names)
+	for _, m := range names {
+		g := ri.methodsByKey[m]
+		if g == nil || g.Blocks == nil {
+			continue
+		}
+		syms := []string{"logLen", "oldMax", "p", "p+1", "arg"}
+		okAll := true
+		why := ""
+		n := 0
+		for _, o := range weakOrderings(syms) {
+			if o["p+1"] != o["p"]+1 || o["p"] > o["oldMax"] {
+				continue
+			}
+			n++
+			st := &absState{max: "oldMax", progress: "p"}
+			ex := &absExec{c: c, ord: o, st: st}
+			ex.exec(g, "arg", 0, ri)
+			if ex.fail != "" {
+				okAll, why = false, ex.fail
+				break
+			}
+			for _, sv := range st.setMax {
+				if o[sv] < o["oldMax"] {
+					okAll, why = false, fmt.Sprintf("with %s the maximum is set to %s", o.String(), sv)
+				}
+			}
+			for _, sv := range st.setProgress {
+				if o[sv] < o["p"] {
+					okAll, why = false, fmt.Sprintf("with %s the progress is set to %s", o.String(), sv)
+				}
+			}
+			if o[st.progress] > o[st.max] {
+				okAll, why = false, fmt.Sprintf("with %s progress (%s) ends above maximum (%s)", o.String(), st.progress, st.max)
+			}
+			if !okAll {
+				break
+			}
+		}
+		cons := relType(ri.named) + "." + m + "#monotone"
+		if okAll {
+			out[m] = true
+			c.ok("R2", cons, g.Pos(), fmt.Sprintf("on all %d order types neither figure decreases and progress <= maximum is kept: the method may be called from anywhere", n))
+		} else {
+			c.bad("R2", cons, g.Pos(), "a method of the status object that writes the maximum or the progress is not monotone (or not compare-and-copy): "+why)
+		}
+	}
+	return out
 }
 
 func rulesStatus(c *Ctx) {
@@ -302,7 +586,7 @@ func rulesStatus(c *Ctx) {
 		if c.isTestFile(f.Pos()) || f.Parent() != nil {
 			continue
 		}
-		if directStatusWriter(c, f) {
+		if directStatusWriter(c, f) && onlyIntParams(f) {
 			direct = append(direct, f)
 		}
 	}
@@ -320,7 +604,10 @@ func rulesStatus(c *Ctx) {
 				n[g] = true
 			}
 		})
-		if len(n) >= 2 {
+		// a composition is itself a recalculation helper only when, like them, it takes nothing
+		// but integers: an operation that happens to call two helpers (a load, a merge) is a
+		// caller, and R3/R4 look at callers
+		if len(n) >= 2 && onlyIntParams(f) {
 			composite = append(composite, f)
 		}
 	}
@@ -328,7 +615,15 @@ func rulesStatus(c *Ctx) {
 	for _, f := range append(append([]*ssa.Function{}, direct...), composite...) {
 		helper[f] = true
 	}
-	c.floor("R2", "status recalculation helpers", len(direct)+len(composite), 3)
+
+	monotone := c.monotoneMutators()
+	nMut := 0
+	for m := range c.replInfoImpl().mutators {
+		if m != "SetMax" && m != "SetProgress" && m != "Reset" {
+			nMut++
+		}
+	}
+	c.floor("R2", "status recalculation helpers", len(direct)+len(composite)+nMut, 3)
 
 	// R1: who may write the status
 	nW := 0
@@ -337,7 +632,11 @@ func rulesStatus(c *Ctx) {
 			continue
 		}
 		eachCall(f, func(call ssa.CallInstruction) {
-			for _, m := range []string{"SetMax", "SetProgress", "Reset"} {
+			ms := []string{"Reset"}
+			if c.isStatusMutation(call) {
+				ms = append(ms, methodName(call))
+			}
+			for _, m := range ms {
 				if !c.isMethodOn(call, m, ifaceReplInfo) {
 					continue
 				}
@@ -355,6 +654,8 @@ func rulesStatus(c *Ctx) {
 					}
 				case helper[topLevel(f)]:
 					c.ok("R1", cons, call.Pos(), "status written by a recalculation helper (checked by R2)")
+				case monotone[m]:
+					c.ok("R1", cons, call.Pos(), "status written through a method of the status object under which neither figure can decrease (checked by R2)")
 				default:
 					c.bad("R1", cons, call.Pos(), "the replication status is written outside the recalculation helpers: nothing guarantees the new value is not below the current one")
 				}
@@ -403,11 +704,11 @@ func rulesStatus(c *Ctx) {
 				if o[s] < o["p"] && cexProg == "" {
 					cexProg = fmt.Sprintf("with %s the progress is set to %s, below its previous value", o.String(), s)
 				}
-				// at rest progress must equal the maximum, which is at least the number of entries held:
-				// a recalculation that leaves progress below the log length can be the last one
-				if o[s] < o["logLen"] && cexFloor == "" {
-					cexFloor = fmt.Sprintf("with %s the progress is set to %s, below the number of entries the log holds", o.String(), s)
-				}
+			}
+			// at rest progress must equal the maximum, which is at least the number of entries held:
+			// a recalculation that leaves progress below the log length can be the last one
+			if len(st.setProgress) > 0 && o[st.progress] < o["logLen"] && cexFloor == "" {
+				cexFloor = fmt.Sprintf("with %s the progress is left at %s, below the number of entries the log holds", o.String(), st.progress)
 			}
 			if len(st.setProgress) > 0 && len(st.setMax) > 0 {
 				if o[st.progress] > o[st.max] && cexInv == "" {
